@@ -5,6 +5,7 @@ import (
 	"go/constant"
 	"go/token"
 	"go/types"
+	"os"
 	"sort"
 	"strings"
 
@@ -7376,8 +7377,14 @@ func ruleNoUnlockOfUnheld(r *Run) {
 			if op.acquire {
 				continue
 			}
-			if f.Parent() != nil && op.root.Parent() != f {
-				// a function literal releasing a captured mutex: decided in the function that defers it
+			ownAcquire := false
+			for _, o := range ops {
+				if o.acquire && o.root == op.root && o.path == op.path {
+					ownAcquire = true
+				}
+			}
+			if f.Parent() != nil && op.root.Parent() != f && !ownAcquire {
+				// a function literal releasing a captured mutex it does not take: decided in the function that defers it
 				onlyDeferred := true
 				par := f.Parent()
 				used := false
@@ -7395,6 +7402,9 @@ func ruleNoUnlockOfUnheld(r *Run) {
 				}
 				if !(used && onlyDeferred) {
 					skipped++
+					if os.Getenv("DVIDLINT_DEBUG_R2070") != "" {
+						fmt.Fprintln(os.Stderr, "R20.70 not decided:", fname(f), w.pos(op.in.Pos()))
+					}
 				}
 				continue
 			}
